@@ -212,7 +212,7 @@ func c02Run(c c02Case, st *vlib.Stats) string {
 	defer os.RemoveAll(imgDir)
 	eng, err := mk.Start(dir)
 	if err == nil {
-		if err = eng.Exec("CREATE DATABASE " + DBName); err == nil {
+		if err = CreateDatabases(eng); err == nil {
 			err = eng.Exec("USE " + DBName)
 		}
 	}
